@@ -4,6 +4,10 @@ CHECKS = [
      "note": "Trusted: Lean kernel; the constant scraper; IEEE rounding is outside the theorems (bit-exact correspondence only); std float primitives assumed identical in Lean and Rust.",
      "technique": "Lean 4 proof over a hand-written model (Rat instance) + bit-exact differential correspondence of the Float instance with the Rust code"},
 ]
+CHECKS.append({"property_id": "C04",
+     "text": "Lean theorems for every input, every character-class table and every start offset: token spans tile the input exactly, tokens are non-empty runs of whole characters on char boundaries, the text assembled from any run of adjacent tokens has non-empty fragments that equal the input slice at their span, in increasing non-overlapping order, and append_fragment's assertion never fires. The complete parser model (lexer, front matter, block splitter, step/quantity/section/metadata/text-block parsers with every diagnostic label) is compared event by event, span by span, with PullParser on ~45k (quick) / ~1M (thorough) inputs under all 256 extension patterns; the oracle checks bounds, char boundaries, fragment faithfulness, event order and that SourceReport::write succeeds on every report.",
+     "note": "Trusted: Lean kernel; generated char table (produced by the real lexer); correspondence generators. Span arithmetic of block parsers/analysis labels is tested by correspondence + oracle, not yet proved.",
+     "technique": "Lean 4 proof over a hand-written parser model (lexer tiling, text assembly) + differential correspondence of all event spans with the Rust parser"})
 ALL = ["C%02d" % i for i in range(1, 20)]
 _claimed = {c["property_id"] for c in CHECKS}
 NOT_APPLICABLE = [{"property_id": p, "reason": "not built yet in this session (work in progress; the technique applies, see DESIGN.md §6)"} for p in ALL if p not in _claimed]
